@@ -138,7 +138,8 @@ fn kbdr_refused_after_ready(recs: &[Rec]) -> bool {
     let mut last_ready = false;
     for r in recs {
         match r {
-            Rec::Read { dev: 1, addr: 0xFE00, res, .. } => last_ready = res.is_some_and(|v| v & 0x8000 != 0),
+            // the documented race: a *truthful* ready (lock free at the status read) ...
+            Rec::Read { dev: 1, addr: 0xFE00, res, held, .. } => last_ready = !*held && res.is_some_and(|v| v & 0x8000 != 0),
             Rec::Read { dev: 1, addr: 0xFE02, eff: true, res: None, held: true } => {
                 if last_ready {
                     return true;
@@ -154,7 +155,7 @@ fn ddr_refused_after_ready(recs: &[Rec]) -> bool {
     let mut last_ready = false;
     for r in recs {
         match r {
-            Rec::Read { dev: 2, addr: 0xFE04, res, .. } => last_ready = res.is_some_and(|v| v & 0x8000 != 0),
+            Rec::Read { dev: 2, addr: 0xFE04, res, held, .. } => last_ready = !*held && res.is_some_and(|v| v & 0x8000 != 0),
             Rec::Write { dev: 2, addr: 0xFE06, res: false, held: true, .. } => {
                 if last_ready {
                     return true;
